@@ -203,3 +203,11 @@ VARIANTS += [
       "        return (n * short) + ((n * days) // 2) \\\n"
       "            + (n * days * (sep + max(1, short) + 3))", "silent"),
 ]
+
+TI = "moptipyapps/ttp/instance.py"
+VARIANTS += [
+    V("away-streak-min-stored-from-home", TI,
+      "            away_streak_min, \"away_streak_min\", 1, ll)",
+      "            home_streak_min, \"away_streak_min\", 1, ll)", "fire",
+      "D7.3", "seed C07-away-streak-min-stored-from-home"),
+]
